@@ -437,7 +437,7 @@ def prior_description(case):
     return v
 
 
-def write_files(case, d):
+def write_files(case, d, stem='data'):
     buf = io.StringIO()
     w = csv.writer(buf, delimiter=case['delimiter'], lineterminator='\n',
                    quoting=csv.QUOTE_MINIMAL)
@@ -449,13 +449,54 @@ def write_files(case, d):
             buf.write('""\n')       # a lone empty field would be a blank line
         else:
             w.writerow(row)
-    path = os.path.join(d, 'data.csv')
+    path = os.path.join(d, stem + '.csv')
     with open(path, 'w', encoding=case['encoding'], newline='') as f:
         f.write(buf.getvalue())
-    mdpath = os.path.join(d, 'data-metadata.json')
+    mdpath = os.path.join(d, stem + '-metadata.json')
+    md = metadata(case)
+    md['url'] = stem + '.csv'
     with open(mdpath, 'w', encoding='utf-8') as f:
-        json.dump(metadata(case), f, ensure_ascii=False)
+        json.dump(md, f, ensure_ascii=False)
     return path, mdpath
+
+
+def call_form(case):
+    """How the files are named to csv2pandas: both paths; the CSV alone,
+    the metadata found by the file-name convention (the CSV's name has a
+    dot before its extension, and a sibling table with the shorter stem
+    has metadata too); or the metadata alone, reached through a symbolic
+    link placed beside the CSV (the shared description itself lives in
+    another directory, beside another table of that name)."""
+    if case.get('prior') or case['header'] == 'absent-no-titles':
+        return 'both'
+    return ['both', 'findmd', 'md-link'][(case['n'] + len(case['cols'])) % 3]
+
+
+def write_for_form(case, d, form):
+    """Returns (args, kwargs) for csv2pandas and the CSV path."""
+    if form == 'both':
+        path, mdpath = write_files(case, d)
+        return (path, mdpath), {}, path
+    decoy = prior_description(dict(case, prior='all-strings'))
+    decoy['n'] = 0
+    for c in decoy['cols']:
+        c['cells'] = []
+    if form == 'findmd':
+        write_files(decoy, d, 'data')
+        path, mdpath = write_files(case, d, 'data.v2')
+        return (path,), {'findmd': True}, path
+    shared = os.path.join(d, 'shared')
+    site = os.path.join(d, 'site')
+    os.makedirs(shared)
+    os.makedirs(site)
+    write_files(decoy, shared)              # the table beside the target
+    with open(os.path.join(shared, 'data-metadata.json'), 'w',
+              encoding='utf-8') as f:
+        json.dump(metadata(case), f, ensure_ascii=False)
+    path, mdpath = write_files(case, site)
+    os.remove(mdpath)
+    os.symlink(os.path.join('..', 'shared', 'data-metadata.json'), mdpath)
+    return (), {'mdpath': mdpath}, path
 
 
 EXPECTED_DTYPE = {'boolean': ['boolean'], 'integer': ['Int64'],
@@ -488,7 +529,9 @@ def run(case, ctx):
                       ensure_ascii=False)
         quiet(csv2pandas, path, mdpath)     # whatever it gives
         out.label('history:metadata-rewritten-in-place')
-    path, mdpath = write_files(case, d)
+    form = call_form(case)
+    cargs, ckw, path = write_for_form(case, d, form)
+    out.label('call:' + form)
     out.label('delim:%r' % case['delimiter'], 'enc:' + case['encoding'],
               'header:' + case['header'])
     nondefault = (case['delimiter'] != ',' or case['encoding'] != 'utf-8'
@@ -505,7 +548,7 @@ def run(case, ctx):
     out.nontrivial = has_null and case['n'] > 0 and (nondefault or noniso)
     if noniso:
         out.label('non-iso-date-pattern')
-    ok, df = quiet(csv2pandas, path, mdpath)
+    ok, df = quiet(csv2pandas, *cargs, **ckw)
     if not ok:
         if case['header'] == 'absent-no-titles':
             out.known_hit(F_HEADERLESS, df.detail())
